@@ -76,6 +76,9 @@ C38_KeepAccept == IsT("keep") => st \in AfterKeep(pst, ev.by, cf)
 C38_ShareAccept == IsT("sos") => st \in AfterSos(pst, ev.by, ev.n, ev.valid)
 (* wait confirmations: only in the wait phase, by a DKG miner, once *)
 C38_WaitAccept == IsT("wait") => st \in AfterWait(pst, ev.by)
+(* in the share and publish phases every DKG miner has a stored key vector (shares are validated  *)
+(* against the sender's own vector)                                                              *)
+C38_ParticipantsHaveKeys == (ev.ev = "Txn38" /\ st.phase \in {Share, Publish}) => st.dkg \subseteq st.mpks
 (* the generator's payFees with the right round is expected to succeed (else nothing is being driven) *)
 HarnessPayFees == (ev.ev = "Txn38" /\ ev.op = "payfees" /\ ev.arg = "ok") => ev.result = "ok"
 =============================================================================
